@@ -42,20 +42,49 @@ pub fn scenario_by_name(name: &str) -> Option<&'static dyn Scenario> {
 // watchdog: wall-clock guard against loops that never touch a stub
 
 struct Slot {
+    /// incremented at every enter(): identifies the plan the worker is on
+    gen: u64,
     started: Option<Instant>,
     plan: Option<Arc<Plan>>,
+    /// kernel thread id of the worker (for its CPU time in /proc)
+    tid: u64,
 }
 
 pub struct Watch {
     slots: Vec<Mutex<Slot>>,
 }
 
+fn current_tid() -> u64 {
+    // /proc/thread-self -> "<pid>/task/<tid>"
+    std::fs::read_link("/proc/thread-self")
+        .ok()
+        .and_then(|p| p.file_name().map(|f| f.to_string_lossy().into_owned()))
+        .and_then(|s| s.parse().ok())
+        .unwrap_or(0)
+}
+
+/// CPU seconds (user+system) a thread of this process has consumed so far
+fn thread_cpu_secs(tid: u64) -> Option<f64> {
+    let path = if tid == 0 { "/proc/self/stat".to_string() } else { format!("/proc/self/task/{}/stat", tid) };
+    let s = std::fs::read_to_string(path).ok()?;
+    // fields after the last ')' : state is field 3; utime = 14, stime = 15
+    let rest = &s[s.rfind(')')? + 2..];
+    let f: Vec<&str> = rest.split_whitespace().collect();
+    let ut: f64 = f.get(11)?.parse().ok()?;
+    let stt: f64 = f.get(12)?.parse().ok()?;
+    Some((ut + stt) / 100.0)
+}
+
 impl Watch {
     fn new(n: usize) -> Arc<Watch> {
-        Arc::new(Watch { slots: (0..n).map(|_| Mutex::new(Slot { started: None, plan: None })).collect() })
+        Arc::new(Watch { slots: (0..n).map(|_| Mutex::new(Slot { gen: 0, started: None, plan: None, tid: 0 })).collect() })
+    }
+    fn register(&self, w: usize) {
+        self.slots[w].lock().unwrap().tid = current_tid();
     }
     fn enter(&self, w: usize, plan: Arc<Plan>) {
         let mut s = self.slots[w].lock().unwrap();
+        s.gen += 1;
         s.started = Some(Instant::now());
         s.plan = Some(plan);
     }
@@ -67,7 +96,11 @@ impl Watch {
 }
 
 pub const WATCHDOG_SECS: u64 = 30;
-/// per-plan limit: base + 1 s per 5 KB of document (stretched documents read in 1-byte pieces on a loaded machine)
+/// corpus plans run thousands of executions each
+pub const WATCHDOG_SECS_CORPUS: u64 = 600;
+/// per-plan limit in seconds of CPU TIME OF THE WORKER THREAD: base + 1 s per 5 KB of
+/// document. CPU time, not wall time: a worker starved by other processes is not a
+/// hanging library. (Wall time is only a last resort at 20x the limit.)
 pub fn watchdog_limit(p: &Plan) -> u64 {
     if p.scenario.starts_with("corpus") {
         WATCHDOG_SECS_CORPUS
@@ -75,28 +108,42 @@ pub fn watchdog_limit(p: &Plan) -> u64 {
         WATCHDOG_SECS + (p.doc.len() as u64) / 5_000
     }
 }
-/// corpus plans run thousands of executions each
-pub const WATCHDOG_SECS_CORPUS: u64 = 600;
 
 fn spawn_watchdog(watch: Arc<Watch>, prop: &'static str, replay_dir: String) {
-    std::thread::spawn(move || loop {
-        std::thread::sleep(std::time::Duration::from_millis(500));
-        for slot in &watch.slots {
-            let s = slot.lock().unwrap();
-            if let (Some(t), Some(p)) = (s.started, &s.plan) {
+    std::thread::spawn(move || {
+        // per slot: (generation seen, CPU seconds of the thread when that generation was first seen)
+        let mut seen: Vec<(u64, f64)> = vec![(0, 0.0); watch.slots.len()];
+        loop {
+            std::thread::sleep(std::time::Duration::from_millis(500));
+            for (i, slot) in watch.slots.iter().enumerate() {
+                let s = slot.lock().unwrap();
+                let (t, p) = match (s.started, &s.plan) {
+                    (Some(t), Some(p)) => (t, p),
+                    _ => continue,
+                };
+                let cpu_now = thread_cpu_secs(s.tid);
+                if seen[i].0 != s.gen {
+                    seen[i] = (s.gen, cpu_now.unwrap_or(0.0));
+                    continue;
+                }
                 let limit = watchdog_limit(p);
-                if t.elapsed().as_secs() >= limit {
+                let cpu_on_plan = cpu_now.map(|c| c - seen[i].1);
+                let stuck = match cpu_on_plan {
+                    Some(c) => c >= limit as f64 || t.elapsed().as_secs() >= limit * 20,
+                    None => t.elapsed().as_secs() >= limit * 4,
+                };
+                if stuck {
                     let v = Violation::new(
-                        if p.scenario == "de" { "C07" } else { "C03" },
+                        crate::registry::panic_prop_of(&p.scenario),
                         "non-termination",
-                        format!("a single simulated run did not finish within {} s of wall time", limit),
+                        format!("a single simulated run did not finish within {} s of CPU time of its worker thread", limit),
                     );
                     let path = write_replay(&replay_dir, &v, p, None);
                     if v.prop == prop {
                         println!("VIOLATION property={} replay={}", v.prop, path);
                         std::process::exit(1);
                     } else {
-                        eprintln!("HARNESS ERROR: run stuck for {} s in a check of {} (plan in {})", limit, prop, path);
+                        eprintln!("HARNESS ERROR: run stuck for {} s of CPU time in a check of {} (plan in {})", limit, prop, path);
                         std::process::exit(2);
                     }
                 }
@@ -233,8 +280,16 @@ pub fn replay(path: &str) -> i32 {
         let (prop, kind, path) = (prop.clone(), kind.clone(), path.to_string());
         let limit = watchdog_limit(&plan);
         std::thread::spawn(move || {
-            std::thread::sleep(std::time::Duration::from_secs(limit));
-            println!("  observed: the run did not finish within {} s of wall time", limit);
+            let t0 = Instant::now();
+            loop {
+                std::thread::sleep(std::time::Duration::from_millis(500));
+                // the replay executes on the main thread only: process CPU time is its CPU time
+                let cpu = thread_cpu_secs(0).unwrap_or(t0.elapsed().as_secs_f64());
+                if cpu >= limit as f64 || t0.elapsed().as_secs() >= limit * 20 {
+                    break;
+                }
+            }
+            println!("  observed: the run did not finish within {} s of CPU time", limit);
             if kind == "non-termination" {
                 println!("VIOLATION property={} replay={}", prop, path);
                 std::process::exit(1);
@@ -393,7 +448,7 @@ fn generic_candidates(p: &Plan) -> Vec<Plan> {
     }
     // --- a token (or element) together with as many leading Read ops: keeps the
     //     later part of a call history aligned with the tokens it was aimed at ---
-    if !p.toks.is_empty() && !p.ops.is_empty() {
+    if !p.toks.is_empty() && !p.ops.is_empty() && !p.ops.iter().any(|o| matches!(o, Op::Raw { .. })) {
         let base = out.len();
         for qi in 0..base {
             let removed = p.toks.len().saturating_sub(out[qi].toks.len());
@@ -414,7 +469,11 @@ fn generic_candidates(p: &Plan) -> Vec<Plan> {
         }
     }
     // --- caller script ---
+    let has_raw = p.ops.iter().any(|o| matches!(o, Op::Raw { .. }));
     for i in (0..p.ops.len()).rev() {
+        if has_raw && i == 0 {
+            continue; // a raw-read script starts with a read_event (BOM sniff at the document start)
+        }
         let mut q = p.clone();
         q.ops.remove(i);
         out.push(q);
@@ -627,6 +686,7 @@ pub fn search(spec: &CheckSpec, tier: Tier, base_seed: u64, workers: usize, scal
                     (&next, &min_bad, &results, &merged, &known_hits, &other_props);
                 sc.spawn(move || {
                     install_panic_hook();
+                    watch.register(w);
                     let mut st = Stats::default();
                     loop {
                         let start = next.fetch_add(BLOCK, Ordering::SeqCst);
